@@ -36,6 +36,10 @@ PBKDF_FAMILY = ["sha1_crypt", "pbkdf2_sha1", "pbkdf2_sha256", "pbkdf2_sha512", "
 MODELLED += PBKDF_FAMILY
 
 
+#: hashers whose cheapest admissible cost still takes a noticeable fraction of a second in pure Python / C
+EXPENSIVE = {"sun_md5_crypt", "bcrypt", "bcrypt_sha256", "django_bcrypt", "django_bcrypt_sha256", "ldap_bcrypt", "scrypt", "argon2", "django_argon2"}
+
+
 def cps(s) -> str:
     if isinstance(s, bytes):
         return ",".join(str(b) for b in s) if s else "-"
@@ -159,6 +163,8 @@ def gen_hashes(name, rng, n=6, vary_secret=False):
             kw["rounds"] = rng.choice([lo, lo + 1, 5000 if lo <= 5000 <= (h.max_rounds or 5000) and h.rounds_cost != "log2" else lo, lo + rng.randrange(0, 2000)]) if h.rounds_cost != "log2" else rng.choice([lo, lo + 1])
             if name in ("bsdi_crypt", "ldap_bsdi_crypt"):
                 kw["rounds"] |= 1
+            if name == "sun_md5_crypt":
+                kw["rounds"] = rng.choice([0, 1, 2, 7, 40])      # the real cost is 4096 + rounds
         if "salt_size" in h.setting_kwds and h.max_salt_size != h.min_salt_size:
             mx = h.max_salt_size or 24
             kw["salt_size"] = rng.choice([h.min_salt_size, mx, rng.randrange(h.min_salt_size, mx + 1)])
@@ -193,8 +199,10 @@ def variants(h, name, s, rng):
         # rounds 400 are elided by to_string; "190" is the explicit spelling; upper-case / prefixed hex digits
         x = handler(name).using(rounds=400).hash("pw")
         out += [x, x.replace("$p5k2$$", "$p5k2$190$", 1), x.replace("$p5k2$$", "$p5k2$+0x190$", 1)]
-        y = handler(name).using(rounds=0xABCDEF).hash("pw")
-        out += [y, y.replace("abcdef", "ABCDEF", 1), y.replace("abcdef", "aB_cD_ef", 1)]
+        # (parse/render only: the digest is not recomputed, so a large cost is spelled into a cheap hash)
+        z = handler(name).using(rounds=0xABC).hash("pw")
+        y = z.replace("$p5k2$abc$", "$p5k2$abcdef$", 1)
+        out += [y, y.replace("abcdef", "ABCDEF", 1), y.replace("abcdef", "aB_cD_ef", 1), z]
     if name == "cta_pbkdf2_sha1":
         y = handler(name).using(rounds=0xABC).hash("pw")
         out += [y, y.replace("$abc$", "$ABC$", 1), y.replace("$abc$", "$ 0XaBc $", 1), y.replace("-", "+").replace("_", "/")]
@@ -352,16 +360,19 @@ def des_bcrypt_variants(name, s, rng):
     if name == "bcrypt_sha256":
         for kw in ({"version": 1, "ident": "2a"}, {"version": 1, "ident": "2b"}, {"version": 2}):
             try:
-                x = hd.using(rounds=rng.choice([4, 5, 10]), **kw).hash("pw")
+                x = hd.using(rounds=rng.choice([4, 5]), **kw).hash("pw")
             except Exception:  # noqa: BLE001
                 continue
             out += [x, x.rsplit("$", 1)[0], x + "\n", x.rsplit("$", 1)[0] + "\n"]
+            x10 = x.replace("r=4", "r=10").replace("r=5", "r=10").replace(",4$", ",10$").replace(",5$", ",10$")   # two-digit cost, parse/render only
+            out.append(x10)
             out.append(x.replace("r=", "r=0", 1).replace(",4$", ",04$").replace(",5$", ",05$"))
             for a, b in (("v=2", "v=02"), ("v=2", "v=\u0662"), ("v=2", "v=3"), ("v=2", "v=1"), ("v=2", "v=0"), ("t=2b", "t=2a"),
                          ("r=4", "r=\u0664"), ("r=10", "r=\u0661\u0660"), ("r=10", "r=1\u0660"), (",4$", ",\u0664$"), ("r=5", "r=31"), ("r=5", "r=32"),
                          ("r=5", "r=3"), ("r=5", "r=005"), (",10$", ",\u0967\u0966$")):
-                if a in x:
-                    out.append(x.replace(a, b, 1))
+                for src in (x, x10):
+                    if a in src:
+                        out.append(src.replace(a, b, 1))
     if name == "sun_md5_crypt":
         if "$$" in s:
             out.append(s.replace("$$", "$", 1))                          # bare-salt form of the same fields
